@@ -1,3 +1,8 @@
-import Flowdyn.Model.FVM1D
-namespace Flowdyn.C13
-end Flowdyn.C13
+/-
+C13 — the 1D solver commutes with reflection and with change of units.
+Part a: reflection equivariance of the space operator for arbitrary kernels obeying the mirror laws
+(proved for the concrete kernels in C02 `…_mirror`, C12 `…_odd`, C16).
+Part b: units equivariance for kernels obeying the homogeneity laws.
+-/
+import Flowdyn.Props.C13a
+import Flowdyn.Props.C13b
